@@ -577,6 +577,7 @@ class Factory:
         m = metrics.APE(metrics.PoseRelation.translation_part)
         m.process_data((a, b))
         res = m.get_result()
+        res.info["title"] = str(res.info.get("title", "APE")) + "\n(with SE(3) Umeyama alignment)"      # as evo_ape / evo_rpe set it
         res.add_trajectory("ref", a)
         res.add_trajectory("est", b)
         return res
@@ -648,9 +649,9 @@ class Factory:
         if name == "ids":
             return [0, 1]
         if name == "array":
-            return np.array([1.0, 2.0, 3.0])
+            return np.array([1.0, float("nan"), 3.0, float("inf")]) if r.random() < 0.3 else np.array([1.0, 2.0, 3.0])
         if name in ("info_dict", "stats_dict"):
-            return {"k": 1.0, "title": "t"}
+            return {"k": 1.0, "title": "t\n(with SE(3) Umeyama alignment)"}
         if name == "meta":
             return {"a": 1}
         if name == "name" or name == "label" or name.endswith("_name") or name == "topic_name" or name == "frame_id":
@@ -916,6 +917,10 @@ def frame_case(ctx, qual, cls, fn, variant, tmp):
                 args["ax"] = plot.prepare_axis(plt.figure(), args["plot_mode"])
             if qual.endswith("traj_colormap"):
                 args["array"] = np.linspace(0.0, 1.0, args["traj"].num_poses)
+                if variant % 3 == 2 and args["traj"].num_poses >= 2:
+                    args["array"][-1] = float("nan")          # non-finite error values (a failed pair): the caller's array stays as it is
+                    args["array"][0] = float("inf")
+                    args["min_map"], args["max_map"] = 0.0, 1.0
             if qual.endswith("draw_correspondence_edges"):
                 args["traj_1"], args["traj_2"] = fac.pair()
             if qual.endswith("colored_line_collection"):
